@@ -54,5 +54,20 @@ a2, b2 = "<!-- KF-TABLE-BEGIN -->", "<!-- KF-TABLE-END -->"
 if a2 in s:
     i2, j2 = s.index(a2) + len(a2), s.index(b2)
     s = s[:i2] + "\n" + "\n".join(lines) + "\n" + s[j2:]
+# ---- rules table (10.2) from the evidence files of the last run
+import glob as _glob
+rl = ["| property | rule | what it requires (as printed by the check) |", "|---|---|---|"]
+tot = []
+for ef in sorted(_glob.glob("/verif/evidence/C*.json")):
+    ev = json.load(open(ef))
+    cov = ev["coverage"]
+    pid = ev["property_id"]
+    for rid, desc in cov.get("rules", {}).items():
+        rl.append(f"| {pid} | {rid} | {desc.replace('|', '/')} |")
+    tot.append(f"{pid}: {cov.get('obligations')} instances over {len(cov.get('functions_analysed', []))} functions")
+a4, b4 = "<!-- RULES-TABLE-BEGIN -->", "<!-- RULES-TABLE-END -->"
+if a4 in s:
+    i4, j4 = s.index(a4) + len(a4), s.index(b4)
+    s = s[:i4] + "\n" + "\n".join(rl) + "\n\nRule instances on the current tree — " + "; ".join(tot) + ".\n" + s[j4:]
 open(p, "w").write(s)
 print(len(rows), "rows;", len(kf["findings"]), "findings")
